@@ -22,8 +22,11 @@ def bq(name, entry, kls, vls, ri, bufcap=64, p=None, tl=None, extra=None, timeou
     if extra:
         d.update(extra)
     n = len(kls)
-    us = {"ubuf_reserve.0": 1 if bufcap >= 64 else 6}
+    us = {"ubuf_reserve.0": 1 if bufcap >= 64 and not unwind else 6}
+    if unwind:      # long shapes: the loops over entries/restarts keep their small bounds, the block must constant-fold
+        us.update({"parse_next_key.0": n + 2, "build_block.0": n + 2, "h_block_roundtrip.0": n + 2, "_varint_decode.0": 6})
     return Query(name, harness="c01_block.c", entry=entry, defines=d, units=BU, unwind=unwind or max(8, n + 3), unwindset=us,
+                 flags=(["--max-field-sensitivity-array-size", str(bufcap + 8)] if bufcap > 64 else []),
                  object_bits=12, timeout=timeout, mem_gb=10, witness=witness, leak_check=True,
                  sample={"entries": n, "key_lens": kls, "val_lens": vls, "restart_interval": ri, "builder_buffer": bufcap,
                          "content": "all key/value bytes symbolic, keys strictly increasing"})
@@ -42,11 +45,14 @@ def build(tier, seed):
         qs.append(bq("block_rt_%d_ri%d_cap%d" % (i, ri, cap), "h_block_roundtrip", kls, vls, ri, cap, witness=(i == 0)))
     # lengths whose varints take two bytes (block.c's slow decode path, the builder's varint encode): templated
     # keys (order and shared-prefix lengths are the shape, every byte no comparison decides on is symbolic)
-    longs = [([1, 129], [0, 1], [128, 0], 2), ([130, 130], [0, 129], [0, 200], 1)]
+    # (single-entry shapes first: a mis-decoded length there fails at once instead of sending symex through garbage)
+    longs = [([2], [0], [128], 1), ([128], [0], [1], 1), ([1], [0], [127], 1), ([1, 129], [0, 1], [128, 0], 2), ([130, 130], [0, 129], [0, 200], 1)]
     if not quick:
-        longs += [([2, 129, 130], [0, 0, 128], [127, 128, 1], 2), ([128, 2, 131], [0, 1, 1], [1, 129, 0], 16), ([127, 128, 129], [0, 127, 128], [129, 0, 127], 1)]
+        longs += [([130, 131], [0, 127], [127, 129], 2), ([128, 2, 131], [0, 1, 1], [1, 129, 0], 16), ([2, 130], [0, 2], [1, 127], 2),
+                  ([130, 131], [0, 128], [0, 0], 2), ([130, 131], [0, 127], [0, 200], 1)]
+    # not finished (SAT reduction beyond 10 GB): long-entry blocks of more than 512 bytes, e.g. keys 130/130 with values 127/129 at interval 1
     for i, (kls, lcps, vls, ri) in enumerate(longs):
-        qs.append(bq("block_rt_long%d_ri%d" % (i, ri), "h_block_roundtrip", kls, vls, ri, 1024, witness=(i == 0), unwind=max(kls + vls) + 4,
+        qs.append(bq("block_rt_long%d_ri%d" % (i, ri), "h_block_roundtrip", kls, vls, ri, 1024, witness=(i == 3), unwind=max(kls + vls) + 4,
                      extra={"KT": shapes.cbytes2(shapes.key_templates(kls, lcps), max(kls))}))
     qs.append(bq("builder_init", "h_builder_init", [1], [1], 1, witness=True))
     # ---- writer half: every configuration axis, decoded independently ----
